@@ -9,7 +9,7 @@ from vp.engine import SubCheck
 
 PROPERTY = "C01"
 RULE = (
-    "(extended 2) the other routes to the two forms are covered too: no_mask constructors (native input, slim input + shape_native) followed by apply_mask, Grid2D.from_yx_1d/from_yx_2d, VectorYX2D.from_mask/no_mask/apply_mask and components, native_skip_mask at the unmasked positions, and the public utilities convert_array_2d_to_slim/native, convert_grid_2d_to_slim/native, index_2d_for_index_slim_from / index_slim_for_index_2d_from (and their round trip over every pixel) and the complex slim/native pair; index lists of masks derived from a mask whose lists were read (invert, copy + in-place edit). "
+    "(extended 3) apply_mask on already-masked arrays / vector fields (slim- and native-stored) with second masks that unmask pixels the first one hid (all-false, rolled, inverted); values supplied in Fortran order and as non-contiguous views. (extended 2) the other routes to the two forms are covered too: no_mask constructors (native input, slim input + shape_native) followed by apply_mask, Grid2D.from_yx_1d/from_yx_2d, VectorYX2D.from_mask/no_mask/apply_mask and components, native_skip_mask at the unmasked positions, and the public utilities convert_array_2d_to_slim/native, convert_grid_2d_to_slim/native, index_2d_for_index_slim_from / index_slim_for_index_2d_from (and their round trip over every pixel) and the complex slim/native pair; index lists of masks derived from a mask whose lists were read (invert, copy + in-place edit). "
     "(extended) every constructed object is also put through additive arithmetic (x+c, c-x) and the native / slim / round-trip forms of the derived object are checked: masked positions of the native form stay zero. "
     "enum2d: every boolean mask with >=1 unmasked pixel on every shape with H*W<=12 (quick) / <=16 "
     "(thorough) with values 1..H*W, checked for Array2D/Grid2D/VectorYX2D in both storage modes and "
@@ -161,6 +161,43 @@ def _check_routes_and_utils(aa, m, mask, vals, ctx):
         ctx.equal(np.asarray(am.slim), want_slim, "array2d/apply_mask/slim", form)
         ctx.equal(np.asarray(am.native), want_native, "array2d/apply_mask/native", form)
         ctx.equal(np.asarray(full.native), vals, "array2d/apply_mask/source-changed", form)
+    # memory layout of the supplied values: Fortran order, a stepped view of a bigger frame, a negative-stride view
+    big = np.zeros((2 * h, 2 * w)); big[::2, ::2] = vals
+    layouts = [("fortran", np.asfortranarray(vals.copy())), ("stepped-view", big[::2, ::2]), ("negative-stride", vals[::-1, ::-1].copy()[::-1, ::-1])]
+    gbig = np.zeros((2 * h, 2 * w, 2)); gbig[::2, ::2] = g
+    glayouts = [("fortran", np.asfortranarray(g.copy())), ("stepped-view", gbig[::2, ::2])]
+    for lname, src in layouts:
+        for store_native in (False, True):
+            a = aa.Array2D(values=src, mask=mask, store_native=store_native)
+            ctx.equal(np.asarray(a.slim), want_slim, "array2d/layout/slim", "%s store_native=%s" % (lname, store_native))
+            ctx.equal(np.asarray(a.native), want_native, "array2d/layout/native", "%s store_native=%s" % (lname, store_native))
+        ctx.equal(np.asarray(src), vals, "array2d/layout/input-changed", lname)
+    for lname, src in glayouts:
+        for store_native in (False, True):
+            gr = aa.Grid2D(values=src, mask=mask, store_native=store_native)
+            ctx.equal(np.asarray(gr.slim), want_gslim, "grid2d/layout/slim", "%s store_native=%s" % (lname, store_native))
+            ctx.equal(np.asarray(gr.native), want_gnative, "grid2d/layout/native", "%s store_native=%s" % (lname, store_native))
+
+    # apply_mask on an array that is ALREADY masked (slim- and native-stored), with second masks that unmask pixels
+    # the first one hid: the result lists the first array's native values (zero where it was masked) under the new mask
+    seconds = [("all-false", np.zeros_like(m)), ("rolled", np.roll(m, 1, axis=1) if w > 1 else np.roll(m, 1, axis=0))]
+    if m.any():
+        seconds.append(("inverted", ~m))
+    for sname, m2 in seconds:
+        if m2.all():
+            continue
+        mask2 = aa.Mask2D(mask=m2.copy(), pixel_scales=1.0)
+        for store_native in (False, True):
+            a1 = aa.Array2D(values=vals.copy(), mask=mask, store_native=store_native)
+            a2 = a1.apply_mask(mask=mask2)
+            tag = "%s second mask, first %s" % (sname, "native-stored" if store_native else "slim-stored")
+            ctx.equal(np.asarray(a2.slim), want_native[~m2], "array2d/apply_mask-again/slim", tag)
+            ctx.equal(np.asarray(a2.native), np.where(m2, 0.0, want_native), "array2d/apply_mask-again/native", tag)
+            ctx.equal(np.asarray(a1.slim), want_slim, "array2d/apply_mask-again/source-changed", tag)
+        v1 = aa.VectorYX2D.from_mask(values=g.copy(), mask=mask)
+        v2 = v1.apply_mask(mask=mask2)
+        ctx.equal(np.asarray(v2.slim), want_gnative[~m2], "vector2d/apply_mask-again/slim", sname)
+        ctx.equal(np.asarray(v2.native), np.where(m2[:, :, None], 0.0, want_gnative), "vector2d/apply_mask-again/native", sname)
     for store_native in (False, True):
         a = aa.Array2D(values=vals.copy(), mask=mask, store_native=store_native)
         nsm = np.asarray(a.native_skip_mask)
